@@ -493,6 +493,7 @@ func (db *DB) Transact(ops []Op) *Outcome {
 	}
 	names := out.Names
 
+	deletedHere := map[string]bool{}
 	fail := func(kind, err, why string) *Outcome {
 		out.Results = append(out.Results, Result{Kind: kind, Err: err, Why: why})
 		return out
@@ -551,7 +552,7 @@ func (db *DB) Transact(ops []Op) *Outcome {
 			if !IsUUID(op.UUID) {
 				return fail(op.Kind, "error", "insert without a valid uuid")
 			}
-			if _, exists := work.T[op.Table][op.UUID]; exists {
+			if _, exists := work.T[op.Table][op.UUID]; exists || deletedHere[op.Table+"/"+op.UUID] {
 				return fail(op.Kind, "duplicate uuid", "row "+op.UUID+" already exists")
 			}
 			row := Row{}
@@ -656,6 +657,7 @@ func (db *DB) Transact(ops []Op) *Outcome {
 			}
 			for _, u := range us {
 				delete(work.T[op.Table], u)
+				deletedHere[op.Table+"/"+u] = true
 			}
 			out.Results = append(out.Results, Result{Kind: "delete", Count: len(us)})
 		case "wait":
